@@ -122,6 +122,7 @@ type LockRecH struct {
 	Seq    int
 	Key    string
 	ForUpd uint64
+	Weak   bool // lock-only-if-exists: the key may not have been locked at all
 }
 
 // TxnRec is what the driver observed for one transaction.
@@ -141,6 +142,7 @@ type TxnRec struct {
 	CommitCalled  bool
 	CommitCallSeq int
 	CommitRetSeq  int
+	EndCallSeq    int // sequence number taken right before Commit / Rollback was called
 	CommitErr     string
 	CommitTS      uint64
 	Outcome       string // open | committed | failed | undetermined | rolledback
@@ -404,7 +406,7 @@ func (c *Client) runTxn(h *History, idx int, p Program, rec *TxnRec) bool {
 				seq := h.next()
 				if p.Mode.Pessimistic {
 					for _, k := range keys {
-						rec.Locks = append(rec.Locks, LockRecH{Seq: seq, Key: k, ForUpd: lctx.ForUpdateTS})
+						rec.Locks = append(rec.Locks, LockRecH{Seq: seq, Key: k, ForUpd: lctx.ForUpdateTS, Weak: op.OnlyExist})
 					}
 				} else {
 					for _, k := range keys {
@@ -462,6 +464,7 @@ func (c *Client) runTxn(h *History, idx int, p Program, rec *TxnRec) bool {
 			rec.CommitCalled = true
 			rec.MaxIssuedAtCommitCall = c.W.TSO.Max()
 			rec.CommitCallSeq = h.next()
+			rec.EndCallSeq = rec.CommitCallSeq
 			err := txn.Commit(ctx)
 			rec.CommitRetSeq = h.next()
 			rec.CommitTS = txn.CommitTS()
@@ -481,6 +484,7 @@ func (c *Client) runTxn(h *History, idx int, p Program, rec *TxnRec) bool {
 			if txn.IsInAggressiveLockingMode() {
 				txn.CancelAggressiveLocking(ctx)
 			}
+			rec.EndCallSeq = h.next()
 			err := txn.Rollback()
 			rec.CommitRetSeq = h.next()
 			if err != nil {
